@@ -107,7 +107,9 @@ CHECKS = {
              "stores: entered + returned = offered, left = reported; plain arcs: out-record = in-record). The whole-model "
              "statement (every node class, every topology and history) is NOT yet a theorem: it is checked by an exact-"
              "arithmetic monitor on random well-formed models (declared in - out = directly measured storage change + decay, "
-             "residual tolerance only for sub-FLOAT_ACCURACY dust).",
+             "residual tolerance only for sub-FLOAT_ACCURACY dust). Node classes with theorems of their own: Demand / ResidentialDemand "
+             "(Demand.v: declared accounts = arc records), Sewer and QueueGroundwater discharge (SewerLaws.v), whole networks of "
+             "junction / store / river / catchment nodes (NetLaws.v, water); families net, demand, tarea tie them.",
         design="5/C01", tech="Coq proof for junction/store/arc building blocks + exact-arithmetic whole-model balance monitor (partial)",
         note=NOTE + "Node classes beyond junction/store/arc are modelled only by the implementation monitor at this stage."),
     "C03": dict(
